@@ -74,6 +74,15 @@ func zioFunc(name string, extra map[string]shim) transFunc {
 		}, extra)}
 }
 
+var callerFields = map[string]fieldSpec{"Defined": {"defined", "bool"}, "File": {"file", "string"}, "Line": {"line", "int"}}
+
+// a pooled *buffer.Buffer local: Get() is the empty buffer, Free() means nothing, AppendInt is strconv (external)
+var pooledBufferCalls = merge(bufferCalls, map[string]shim{
+	"bufferpool.Get":   {kind: "lit", f: ".bytes []", res: []string{"Buffer"}},
+	"Buffer.Free":      {kind: "nop"},
+	"Buffer.AppendInt": {kind: "mut", f: "Buffer.AppendInt"},
+})
+
 var jsonEncFields = map[string]fieldSpec{
 	"buf":            {"buf", "Buffer"},
 	"spaced":         {"spaced", "bool"},
@@ -145,6 +154,12 @@ var transSpecs = []transSpec{
 		zioFunc("writeLine", map[string]shim{"recv.flush": {kind: "fun", f: "flush"}}),
 		zioFunc("Write", map[string]shim{"recv.writeLine": {kind: "fun", f: "writeLine", res: []string{"bytes"}}}),
 		zioFunc("Sync", map[string]shim{"recv.flush": {kind: "fun", f: "flush"}}),
+	}},
+	{table: "TransCaller", funcs: []transFunc{
+		{file: "zapcore/entry.go", recv: "EntryCaller", name: "FullPath", lean: "FullPath", fields: callerFields,
+			calls: pooledBufferCalls},
+		{file: "zapcore/entry.go", recv: "EntryCaller", name: "TrimmedPath", lean: "TrimmedPath", fields: callerFields,
+			calls: merge(pooledBufferCalls, stdCalls, map[string]shim{"recv.FullPath": {kind: "fun", f: "FullPath", res: []string{"string"}}})},
 	}},
 	{table: "TransJsonSep", funcs: []transFunc{
 		{file: "zapcore/json_encoder.go", recv: "jsonEncoder", name: "addElementSeparator", lean: "addElementSeparator",
